@@ -28,7 +28,8 @@ Texts ==
     [] TextSet = "rel"   -> { <<115,58,47,97,47,98>>,                    \* s:/a/b
                               <<115,58,47,47,98>>,                       \* s://b        (authority "b")
                               <<46,47,47,98>>,                           \* .//b
-                              <<83,58,47,37,52,49,47,46>> }              \* S:/%41/.
+                              <<83,58,47,37,52,49,47,46>>,               \* S:/%41/.
+                              <<97,47,46,46,47,49,58,50>> }              \* a/../1:2    (':' first segment that does not look like a scheme)
     [] OTHER -> {}
 
 VARIABLES st, hist
